@@ -119,6 +119,8 @@ func panicClass(msg string) string {
 		return "out-of-memory"
 	case strings.Contains(msg, "stack overflow"), strings.Contains(msg, "stack exceeds"):
 		return "stack-overflow"
+	case strings.Contains(msg, "closed channel"):
+		return "closed-channel"
 	case strings.Contains(msg, "all goroutines are asleep"):
 		return "deadlock"
 	}
